@@ -1,5 +1,5 @@
 (* Executable model of src/model_diagnostics/_utils/binning.py
-   (`_format_integer`, lines 15-25, and `bin_feature`, lines 28-327; line numbers as of commit 9ce4ae5).
+   (`_format_integer`, lines 15-25, and `bin_feature`, lines 28-331; line numbers as of commit b2b5cba).
    Definitions only; the lemmas are in proofs/BinningProps.v.
 
    Numeric features.  A cell of the feature column is `option ext`:
@@ -56,7 +56,7 @@ Definition xmin_opt (l : list ext) : option ext :=
 Definition xmax_opt (l : list ext) : option ext :=
   match l with [] => None | x :: xs => Some (xmaxl x xs) end.
 
-(* `np.nanquantile(feature, q, method="inverted_cdf")`, line 274: the least value
+(* `np.nanquantile(feature, q, method="inverted_cdf")`, line 273: the least value
    whose empirical distribution function reaches q - the definition of
    Functionals.qlow, here over `ext` because the column may hold infinities
    (proofs/BinningProps.xqlow_fin: on finite data it IS `qlow` with unit weights) *)
@@ -70,7 +70,7 @@ Definition xqlow (a : Q) (l : list ext) : ext :=
   | x :: xs => xminl x xs
   end.
 
-(* `np.unique`, line 281: sorted, duplicates removed *)
+(* `np.unique`, line 280: sorted, duplicates removed *)
 Fixpoint dedup (l : list ext) : list ext :=
   match l with
   | [] => []
@@ -81,12 +81,12 @@ Fixpoint dedup (l : list ext) : list ext :=
   end.
 Definition xuniq (l : list ext) : list ext := dedup (isort xleb l).
 
-(* `np.digitize(x, bins, right=True)`, line 290: i with bins[i-1] < x <= bins[i],
+(* `np.digitize(x, bins, right=True)`, line 294: i with bins[i-1] < x <= bins[i],
    i.e. searchsorted(bins, x, side="left") = the number of edges strictly below x *)
 Definition digitize (edges : list ext) (v : ext) : nat :=
   List.length (filter (fun e => xltb e v) edges).
 
-(* lines 292-300: full edge vector and the table of consecutive pairs *)
+(* lines 296-304: full edge vector and the table of consecutive pairs *)
 Fixpoint pairs (l : list ext) : list (ext * ext) :=
   match l with
   | x :: l' => match l' with [] => [] | y :: _ => (x, y) :: pairs l' end
@@ -112,14 +112,15 @@ Definition b2n (b : bool) : nat := if b then 1%nat else 0%nat.
 Definition n_bins_ef0 {A} (n_bins : nat) (feature : list (option A)) : nat :=
   Nat.max 1 (n_bins - b2n (has_nulls feature)).
 
-(* a row of the returned frame: bin number (as stored: line 307 casts the
+(* a row of the returned frame: bin number (as stored: line 311 casts the
    numbers to the feature's dtype, so a Boolean feature stores bin <> 0) and the
    pair of edges of the bin the row was digitised into; None = null row *)
 Definition nrow := option (nat * (ext * ext)).
 
 Inductive nres :=
   | NOk (n_bins_out : nat) (edges : list ext) (table : list (ext * ext)) (rows : list nrow)
-  | NNanEdges            (* "uniform" without any finite value: inf + (-inf) * k / m = NaN edges *)
+  | NNanEdges            (* NaN edges; old record: before /repo commit b2b5cba "uniform" on a column with
+                            only -inf and +inf got here; no input reaches it any more *)
   | NErr (e : berr).
 
 (* lines 261-268 *)
@@ -136,10 +137,10 @@ Definition finite_max (vals : list ext) (fmax : ext) : option ext :=
 
 Definition seq1 (m : nat) : list nat := seq 1 (m - 1).     (* np.arange(1, m) *)
 
-(* lines 274-281 *)
+(* lines 273-280 *)
 Definition quantile_edges (vals : list ext) (m : nat) : list ext :=
   xuniq (map (fun k => xqlow (Qred (Qnat k / Qnat m)) vals) (seq1 m)).
-(* line 283 *)
+(* line 287 *)
 Definition uniform_edges (lo range : Q) (m : nat) : list ext :=
   map (fun k => Fin (Qred (lo + range * Qnat k / Qnat m))) (seq1 m).
 
@@ -162,35 +163,38 @@ Definition bin_numeric (kind : nkind) (feature : list (option ext)) (n_bins : na
   let hn := has_nulls feature in
   match xmin_opt vals, xmax_opt vals with                            (* line 249 *)
   | Some fmin, Some fmax =>
-      match finite_min vals fmin, finite_max vals fmax with
-      | Some lo, Some hi =>                                          (* line 269: f_range *)
-          let m_ef := n_bins_ef0 n_bins feature in
-          let finish (m_out : nat) (edges : list ext) :=
-            NOk (m_out + b2n hn) edges (edge_table fmin fmax edges)
-                (digitize_rows kind fmin fmax edges feature) in
-          match m with
-          | Quantile =>
-              match kind, hn with
-              | KBool, true => NErr ETypeError       (* np.nanquantile on an object array *)
-              | _, _ => finish m_ef (quantile_edges vals m_ef)
-              end
-          | Uniform =>
-              match kind, hn with
-              | KBool, true => NErr ETypeError
-              | _, _ =>
-                  match lo, hi with
-                  | Fin a, Fin b => finish m_ef (uniform_edges a (b - a) m_ef)
-                  | _, _ =>              (* only {-inf, +inf}: lo = +inf, hi = -inf, f_range = -inf *)
-                      if (m_ef <=? 1)%nat then finish m_ef [] else NNanEdges
-                  end
-              end
-          | NumpyRule =>
-              match kind with
-              | KBool => NErr EInvalidOp             (* line 286: is_finite on Boolean *)
-              | KNum => finish (S (List.length interior)) (map Fin interior)      (* line 288 *)
+      let lo := finite_min vals fmin in                              (* lines 261-268 *)
+      let hi := finite_max vals fmax in
+      let m_ef := n_bins_ef0 n_bins feature in
+      let finish (m_out : nat) (edges : list ext) :=
+        NOk (m_out + b2n hn) edges (edge_table fmin fmax edges)
+            (digitize_rows kind fmin fmax edges feature) in
+      match m with
+      | Quantile =>
+          match kind, hn with
+          | KBool, true => NErr ETypeError       (* np.nanquantile on an object array *)
+          | _, _ => finish m_ef (quantile_edges vals m_ef)
+          end
+      | Uniform =>
+          match kind, hn with
+          | KBool, true => NErr ETypeError
+          | _, _ =>
+              match lo, hi with
+              | Some l, Some h =>
+                  (* line 282: finite_min > finite_max (only -inf and +inf): a single bin *)
+                  if xltb h l then finish m_ef []
+                  else match l, h with
+                       | Fin a, Fin b => finish m_ef (uniform_edges a (b - a) m_ef)   (* lines 286-287 *)
+                       | _, _ => NNanEdges   (* inf arithmetic; unreachable: BinningProps.bin_numeric_accepts *)
+                       end
+              | _, _ => finish m_ef []         (* line 282: no value below +inf / above -inf *)
               end
           end
-      | _, _ => NErr ETypeError      (* None - x: no value below +inf / above -inf *)
+      | NumpyRule =>
+          match kind with
+          | KBool => NErr EInvalidOp             (* line 290: is_finite on Boolean *)
+          | KNum => finish (S (List.length interior)) (map Fin interior)      (* line 292 *)
+          end
       end
   | _, _ =>                          (* lines 250-260: only null / NaN values (`feature_min is None`): every row
                                         goes into the null bin, n_bins = int(has_nulls) *)
